@@ -1,13 +1,14 @@
 ID = "C19"
 TESTS = [
     T("nfs41sim", "TestC19NFS41ExactlyOnce",
-      {"checks": 5000, "shards": 2, "timeout": 300, "args": ["-rapid.shrinktime=15s"]},
+      {"checks": 3500, "shards": 3, "timeout": 300, "args": ["-rapid.shrinktime=15s"]},
       {"checks": 30000, "shards": 5, "timeout": 1500}),
     T("nfs41sim", "TestC19Regress.*",
       {"checks": 1, "shards": 1, "timeout": 120},
       {"checks": 1, "shards": 1, "timeout": 120}, plain=True),
 ]
 ASSUMPTIONS = [
+    "nfs41: RFC 8881 2.10.6.1.3.1 only obliges the server to detect a false retry where it can; slot sequence IDs start at 1 in every new session and cannot be chosen by the client, so their wrap-around (2^32 requests on one slot) is not reachable without a hook; the CREATE_SESSION sequence ID is drawn by the server from its random number generator, which the harness owns: it is made to start at 2^32-3..2^32-1 and 0 so that CREATE_SESSION, its replay and the misordered variants straddle the wrap-around",
     "nfs41: 'content differs' (NFS4ERR_SEQ_FALSE_RETRY required) is asserted only for differences in the number or types of the operations covered by the cached reply, which is what the code and the upstream FalseRetries tests document as checked; a retry that differs in arguments only must be answered with that error or with the original's cached reply, and must never execute",
     "nfs41: a retransmission of a request sent without sa_cachethis may be answered either byte-identically or with the documented NFS4ERR_RETRY_UNCACHED_REP form (original SEQUENCE result + second operation failing with that status)",
 ]
